@@ -23,10 +23,36 @@ Fixpoint gapsb_ok (pkts : list pkt) (ids l : list Z) : bool :=
 Definition split_ok5 (pkts : list pkt) (gopon : bool) (ids out : list Z) (j : nat) : bool :=
   split_ok4 pkts gopon ids out j && gapsb_ok pkts ids (skipn j out).
 
+(* THE SEAM between the join replay and the live part.  The consumer registered after r published
+   packets: what it was handed starts with (a prefix of) the replay of the first r packets
+   ([spec_snap], Model/Cache.v); if something follows and the first live id is not packet r itself,
+   then the packets from r up to it were dropped for backlog: packet r (the first one broadcast to the
+   consumer) starts a key frame - a consumer never starts out discarding, however long its replay is
+   compared to the limit - and so does the first live one;
+   and the live part (for the same r) has its gaps aligned at both ends. *)
+Definition first_ok (pkts : list pkt) (ids : list Z) (r : nat) (live : list Z) : bool :=
+  match live with
+  | [] => true
+  | y :: _ => if (r <? posZ y ids)%nat
+              then (kind_of pkts (nth r ids 0) =? 2) && (kind_of pkts y =? 2) else true
+  end.
+Definition seam_ok (pkts : list pkt) (gopon : bool) (ids out : list Z) : bool :=
+  existsb (fun r =>
+     let snap := map p_id (spec_snap gopon (firstn r pkts)) in
+     if (length out <=? length snap)%nat then prefixZ out snap
+     else let live := skipn (length snap) out in
+          prefixZ snap out && first_ok pkts ids r live && gaps_ok pkts ids live && gapsb_ok pkts ids live)
+    (seq 0 (S (length pkts))).
+
 Definition ok_C04x (c : lcase) (o : obs) : bool :=
   ok_C04 c o &&
   (let ids := map p_id (l_pkts c) in
    if nodupZ ids
    then forallb (fun k => existsb (split_ok5 (l_pkts c) (l_gop c) ids (o_out k))
                                   (seq 0 (S (length (o_out k))))) (o_cons o)
+   else true) &&
+  (* the stream is not closed during the schedule (hypothesis of C02's join theorems) *)
+  (let ids := map p_id (l_pkts c) in
+   if nodupZ ids && forallb (fun t => negb (is_close t)) (l_sched c)
+   then forallb (fun k => seam_ok (l_pkts c) (l_gop c) ids (o_out k)) (o_cons o)
    else true).
